@@ -35,6 +35,14 @@ func init() {
 			world.J{"uuid": world.ActUUID(f, i, 1), "type": "set_run_result", "name": "ctxdump",
 				"value": "@(json(parent)) @(json(child)) @(json(run)) @(json(contact)) @(json(input)) @(json(trigger)) @(json(resume)) @(json(node)) @(json(fields)) @(json(urns)) @(json(ticket))"}}
 	}
+	// resolves the contact's destinations (a message), then clears the channel affinity of its URNs
+	world.ActionSets["clearchan"] = func(f, i int) []any {
+		return []any{
+			world.J{"uuid": world.ActUUID(f, i, 0), "type": "send_msg", "text": "before @contact.channel.name"},
+			world.J{"uuid": world.ActUUID(f, i, 1), "type": "set_contact_channel", "channel": nil},
+			world.J{"uuid": world.ActUUID(f, i, 2), "type": "send_msg", "text": "after @contact.channel.name"},
+		}
+	}
 	world.ActionSets["now"] = func(f, i int) []any {
 		return []any{
 			world.J{"uuid": world.ActUUID(f, i, 0), "type": "set_run_result", "name": "When", "value": "@(now()) @(1234.5) @(format_datetime(now())) @(format_number(1234.5)) @(today())"},
@@ -98,9 +106,14 @@ func roots(tier string) []world.Root {
 	}
 	// localized results: a contact whose language has translations of the router categories (longer
 	// than a category name may be, one with a line break), so that saved results carry them
+	// The contact of this family also carries state that lives in objects a live session keeps and a
+	// restored one rebuilds: an earlier last_seen_on (shared with the trigger's copy of the contact) and
+	// a tel URN with an affinity to the second tel channel (resolved destinations).
 	spa := world.DefaultContact()
 	spa["language"] = "spa"
-	loc := world.EnumFlowSets([]string{"A:ctx", "Eo", "W", "WT"}, 2, 1)
+	spa["last_seen_on"] = "2024-01-01T00:00:00.000000000Z"
+	spa["urns"] = []any{"tel:+12065551212?channel=" + world.ChanTel2, "twitter:ann"}
+	loc := world.EnumFlowSets([]string{"A:ctx", "A:clearchan", "Eo", "W", "WT"}, 2, 1)
 	for i := range loc {
 		if !hasWait(loc[i]) {
 			continue
@@ -108,8 +121,12 @@ func roots(tier string) []world.Root {
 		for j := range loc[i].Flows {
 			loc[i].Flows[j].Localized = true
 		}
+		// (a second tel channel, which the contact's tel URN has an affinity to)
+		a := world.WithFlows(world.BaseAssets(), world.RenderFlows(loc[i]))
+		a["channels"] = append(append([]any{}, a["channels"].([]any)...),
+			world.J{"uuid": world.ChanTel2, "name": "Tel Two", "address": "+12065550002", "schemes": []any{"tel"}, "roles": []any{"send", "receive"}, "country": "US"})
 		for _, tr := range []string{"manual", "msg"} {
-			out = append(out, world.Root{Flows: &loc[i], Trigger: tr, Contact: spa, Opt: world.Options{MaxSteps: 8}})
+			out = append(out, world.Root{Flows: &loc[i], Assets: a, Trigger: tr, Contact: spa, Opt: world.Options{MaxSteps: 8}})
 		}
 	}
 	return out
